@@ -18,6 +18,7 @@ REPLAYS = os.path.join(VERIF, "replays")
 GOENV = dict(os.environ, GOFLAGS="-mod=mod", GOPROXY="off", GOSUMDB="off", GOTOOLCHAIN="local")
 
 _scratch = None
+FRONT_COUNTS = {"grpc": 0, "msgpack-rpc": 0}     # cases sent through each front end (VERIF_FRONT)
 
 
 def scratch():
@@ -84,6 +85,14 @@ def run_cases(binary, cases, timeout=600, env=None, per_case_timeout=None, tag="
     d = scratch()
     fin = os.path.join(d, "%s.%d.in" % (tag, random.getrandbits(32)))
     fout = fin[:-3] + ".out"
+    # VERIF_FRONT=grpc: every request op goes through the gRPC front end instead of the msgpack-RPC one;
+    # VERIF_FRONT=mix: every second case does (ops the gRPC service does not offer fall through)
+    front = os.environ.get("VERIF_FRONT", "")
+    for i in range(len(cases)):
+        FRONT_COUNTS["grpc" if (front == "grpc" or (front == "mix" and i % 2 == 1)) else "msgpack-rpc"] += 1
+    if front in ("grpc", "mix"):
+        cases = [dict(c, ops=[dict(o, front="grpc") if o.get("op") in ("create", "write", "query", "destroy", "list") else o for o in c["ops"]])
+                 if (front == "grpc" or i % 2 == 1) else c for i, c in enumerate(cases)]
     with open(fin, "w") as f:
         for c in cases:
             f.write(json.dumps(c) + "\n")
@@ -293,6 +302,8 @@ class Result:
     def finish(self):
         os.makedirs(EVID, exist_ok=True)
         wall = time.time() - self.t0
+        if FRONT_COUNTS["grpc"]:
+            self.cov["cases_by_front_end"] = dict(FRONT_COUNTS)
         ev = {"property_id": self.prop, "tier": self.tier, "seed": self.seed, "level": self.level,
               "coverage": self.cov, "assumptions": self.assumptions, "wall_s": round(wall, 2),
               "violations": len(self.violations),
